@@ -6,18 +6,26 @@ import warnings
 
 import attr
 
+import common
 import initbuild as ib
 from props import c01
 
 ID = "C12"
 RULE = ("class chains of C01 (aliases, private names, kw_only, init=False, converters, validators, frozen, slots, "
-        "cache_hash, inheritance) x histories {hash taken before, a field reassigned before (mutable classes)} x "
-        "operation {evolve, assoc} x change sets (random subsets of init aliases / field names, sometimes an unknown "
-        "name; new values are fresh tokens, None, the empty string, or a value EQUAL to the field's current one) x "
+        "cache_hash, inheritance) x validator behaviour (per validated field possibly one validator that REJECTS when the "
+        "instance holds a value marked bad in its own or in another field; raising the marker exception alone or combined "
+        "with ValueError / TypeError) x histories {hash taken before, a field reassigned before (mutable classes) -- also to "
+        "a bad value the class's validators would reject --, an instance attribute that is no field added, validators "
+        "switched off process-wide during the operation} x operation {evolve, assoc} x change sets (random subsets of init "
+        "aliases / field names in random order; new values are fresh tokens, None, the empty string, a value EQUAL to the "
+        "field's current one, or a bad value; sometimes one name that is no key: unknown, a field's name where the alias "
+        "is wanted (or the alias where the name is wanted), an init=False field, a method / property / class constant of "
+        "the class, an instance-dict extra, dunder names of attrs classes, names resolving on every tuple) x "
         "harness-only variation the model is independent of: the instance's class is the leaf or a plain subclass of it "
-        "(with or without __slots__ = ()); every passed value is a new object, either of a str subclass or a plain str "
-        "(so an equal value has the same or a different type than the current one). assoc runs on every layout "
-        "(dict classes below slotted attrs classes, plain classes in between, plain subclasses) except exception classes. "
+        "(with or without __slots__ = (); it defines a method, a property and a constant); every passed value is a new "
+        "object, either of a str subclass or a plain str. assoc runs on every layout (dict classes below slotted attrs "
+        "classes, plain classes in between, plain subclasses; instances with unset init=False fields where copying does "
+        "not go through a generated __getstate__) except exception classes. "
         "Non-trivial = at least one change or one converter/init=False field; distinct = distinct (class spec, history, op, changes)")
 ASSUMPTIONS = c01.ASSUMPTIONS + [
     "assoc is not exercised on exception classes (copy.copy of a BaseException re-runs the constructor with .args)",
@@ -26,28 +34,98 @@ ASSUMPTIONS = c01.ASSUMPTIONS + [
     "so 'is the passed object' and 'is the original's object' never coincide except for None / the empty string, where "
     "'passed' is reported first on both sides",
     "invariants are observed against an instance rebuilt from the result's own field values (eq, hash incl. cached hash, frozenness)",
+    "likeDirect is a run-time comparison: after evolve the class is called directly with the same argument objects "
+    "(current values read with getattr) and exception kind, stored values and callback trace are compared; it also "
+    "requires the process-wide validator switch to be what it was before the operation",
+    "state-dependent validators are harness callbacks (one rule shape: reject iff a watched field of the instance "
+    "handed in holds a value whose text contains 'bad'); the Lean model knows the rules (Case.veto) and the order in "
+    "which the generated initializer calls validators",
+    "layout facts instHasDict / copyNeedsAll are read from the real class of the instance (like isSlot)",
+    "resolvesOnTuple lists only the tuple/object attribute names the generator uses (K12a)",
 ]
 EXHAUSTIVE = {"quick": False, "thorough": False}
 BUDGET_S = {"quick": 40, "thorough": 420}
 LEVEL_TEXT = ("Lean: evolve is defined through the initializer model, so the C01/C02 theorems apply to its result; theorems "
-              "C12_evolve_is_init, C12_original_untouched, C12_unknown_typeerror, C12_assoc_spec, C12_assoc_unknown_notfound, "
-              "C12_evolve_identity, C12_assoc_identity (named fields hold the very object given -- also when it equals the "
-              "old one -- and the others share the original's), C12_model_meets_spec. Tied to /repo by differential "
-              "correspondence over class chains (incl. mixed slotted/dict storage and plain subclasses) x histories x change "
-              "sets, observing result values read back with getattr, which object each field holds (identity with the "
-              "passed / the original's object), the original afterwards, exception kind, and eq/hash/frozenness of the "
-              "result against an instance rebuilt from its values (detects stale cached hashes).")
+              "C12_evolve_is_init, C12_original_untouched, C12_evolve_values, C12_evolve_vetoed (what a validator of ANY field "
+              "-- changed or carried over, looking at its own or another field -- rejects, evolve refuses with that "
+              "validator's exception after the callbacks of a direct call up to it), C12_evolve_trace (a successful evolve "
+              "runs exactly the callbacks of a direct call), C12_unknown_typeerror, C12_typeerror_iff, C12_assoc_spec (raw "
+              "replacement, no callback runs, unset fields stay unset), C12_assoc_unknown_notfound (every non-field name "
+              "outside K12a), C12_evolve_identity, C12_assoc_identity (named fields hold the very object given -- also when "
+              "it equals the old one -- and the others share the original's), C12_result_invariants, C12_model_meets_spec; "
+              "witnesses for K2, K3, K12a. Tied to /repo by differential correspondence over class chains (incl. mixed "
+              "slotted/dict storage and plain subclasses) x validator behaviour x histories x change sets, observing result "
+              "values read back with getattr, which object each field holds (identity with the passed / the original's "
+              "object), the callback trace of the operation, evolve against a direct call of the class with the same "
+              "arguments (exception, values, trace, validator switch restored), the original afterwards, exception kind, "
+              "and eq/hash/frozenness of the result against an instance rebuilt from its values (detects stale cached hashes).")
 
 
-def _history(h, ctor, hist):
+class VetoValueError(common.UserError, ValueError):
+    """what a rejecting validator conventionally raises"""
+
+
+class VetoTypeError(common.UserError, TypeError):
+    pass
+
+
+VETO_EXC = {"plain": common.UserError, "value": VetoValueError, "type": VetoTypeError}
+
+
+def _veto_rule(veto, exc_kind="plain"):
+    """the state-dependent validators of a case: validator `idx` of `field` raises iff the instance it is handed
+    currently holds a value whose text contains "bad" in field `watch` (its own or another field); what it raises
+    is the harness's marker exception, alone or combined with ValueError / TypeError"""
+    if not veto:
+        return None
+    exc_cls = VETO_EXC[exc_kind]
+    table = {}
+    for r in veto:
+        table.setdefault((r["field"], r["idx"]), []).append(r["watch"])
+
+    def rule(kind, field, idx, args, tag):
+        if kind != "validator" or tag:
+            return False
+        for w in table.get((field, idx), ()):
+            try:
+                v = getattr(args[0], w)
+            except BaseException:  # noqa: BLE001
+                continue
+            if "bad" in ib._canon(v):
+                raise exc_cls(f"veto:{field}.{idx}")
+        return False
+    return rule
+
+
+# names that are no fields of any generated class
+CLEAN_NAMES = ["nope", "x_", "__attrs_attrs__", "__match_args__", "__setstate__", "__slots__", "__weakref__",
+               "_attrs_cached_hash", "__attrs_post_init__", "__attrs_pre_init__", "__attrs_init__",
+               "describe", "LIMIT", "area", "zz_note"]
+# ... and those that resolve on every fields tuple (Lean: resolvesOnTuple; known finding K12a for assoc)
+TUPLE_NAMES = ["count", "index", "__len__", "__doc__", "__module__", "__getstate__", "__init__"]
+
+
+def _ps_body(L, ps):
+    """a plain subclass with the usual non-field members: a method, a class constant, a read-only property"""
+    ns = {"__module__": L.__module__, "describe": lambda self: "described", "LIMIT": 5,
+          "area": property(lambda self: "area")}
+    if ps == "slots":
+        ns["__slots__"] = ()
+    return ns
+
+
+def _history(h, ctor, hist, veto=None, veto_exc="plain"):
+    """builds the original and replays its history; leaves the case's validator rule installed in ib.VETO (the
+    caller resets it)"""
     classes = ib.build(h)
     C = classes[-1]
+    ib.VETO[0] = _veto_rule(veto, veto_exc)
     ps = hist.get("plain_sub")
     if ps:
         # the instance's class is a plain (undecorated) subclass of the leaf: same fields, same initializer, but
         # `type(inst).__dict__` has no __slots__ (or an empty one) whatever the storage of the fields is
         L = C
-        C = type("PS", (L,), {"__module__": L.__module__, **({"__slots__": ()} if ps == "slots" else {})})
+        C = type("PS", (L,), _ps_body(L, ps))
         inst = C.__new__(C)
         ib.SELF[0] = inst
         del ib.TRACE[:]
@@ -92,15 +170,30 @@ def _history(h, ctor, hist):
             setattr(inst, name, ib.decode(val))
         except Exception:  # noqa: BLE001
             pass
+    if hist.get("extra_attr") and hasattr(inst, "__dict__"):
+        # an instance attribute that is no field (as an __attrs_post_init__ or later code would leave it)
+        try:
+            object.__setattr__(inst, "zz_note", "post")
+        except Exception:  # noqa: BLE001
+            pass
     del ib.TRACE[:]
     names = [f["name"] for f in ib.expected_fields(h)]
     return inst, ib.read_values(inst, names), C
 
 
-def make_case(h, ctor, hist, op, changes, cur, passed_as="sub"):
+def layout_facts(inst):
+    gs = getattr(type(inst), "__getstate__", None)
+    return {"instHasDict": hasattr(inst, "__dict__"),
+            "copyNeedsAll": getattr(gs, "__name__", None) == "slots_getstate"}
+
+
+def make_case(h, ctor, hist, op, changes, cur, passed_as="sub", veto=(), facts=None, veto_exc="plain"):
     run, is_define, cls_on = ib.run_in(h)
+    facts = facts or {"instHasDict": True, "copyNeedsAll": True}
     return {"base": {"run": run, "call": {"pos": [], "kw": []}, "isDefine": is_define, "clsOnSet": cls_on},
-            "op": op, "cur": cur, "changes": changes, "hspec": h, "ctor": ctor, "hist": hist, "passed_as": passed_as}
+            "op": op, "cur": cur, "changes": changes, "veto": list(veto), "instHasDict": facts["instHasDict"],
+            "copyNeedsAll": facts["copyNeedsAll"],
+            "hspec": h, "ctor": ctor, "hist": hist, "passed_as": passed_as, "veto_exc": veto_exc}
 
 
 def _passed(v, mode):
@@ -132,51 +225,81 @@ def gen_cases(tier, rng):
         fields = ib.expected_fields(h)
         frozen = ib.leaf_frozen(h)
         ctor = ib.gen_call(rng, h, malformed=0.0)
-        anc_slotted = any(cs["kind"] == "attrs" and ib.leaf_slots(cs) for cs in h["classes"][:-1])
-        for _ in range(3):
-            hist = {"hash_before": rng.random() < 0.6, "reassign": [], "warm": [], "warm_sub": rng.random() < 0.3,
-                    "plain_sub": rng.choice([None, None, None, None, None, "dict", "dict", "slots"])}
-            if len(h["classes"]) > 1 and rng.random() < 0.6:
-                for i, cs in enumerate(h["classes"][:-1]):
-                    if cs["kind"] == "attrs" and cs.get("init") is not False:
-                        hist["warm"].append([i, ib.gen_call(rng, {"classes": h["classes"][: i + 1]}, malformed=0.0)])
-            if not frozen and fields and rng.random() < 0.4:
-                f = rng.choice(fields)
-                hist["reassign"] = [[f["name"], "r1"]]
-            inst, cur, C = _history(h, ctor, hist)
-            if inst is None:
-                break
-            if any(v is not None and (v == "NOTHING" or v.startswith("exc:")) for _, v in cur):
-                continue
-            curd = dict(map(tuple, cur))
-            init_fields = [f for f in fields if f.get("init", True)]
-            if any(curd.get(f["name"]) is None for f in init_fields):
-                continue  # an init field is unset on the original (K3 shapes): evolve's precondition fails
-            op = rng.choice(["evolve", "evolve", "assoc"])
-            if op == "assoc" and any(v is None for _, v in cur):
-                op = "evolve"      # copying needs every field set (C10's stated precondition)
-            if op == "assoc" and (ib.run_in(h)[0]["cfg"]["isExc"] or h["classes"][0].get("exc_base")):
-                op = "evolve"
-            if op == "evolve":
-                keys = [(f.get("alias") or ib.default_alias(f["name"]), f["name"]) for f in init_fields]
-            else:
-                keys = [(f["name"], f["name"]) for f in fields]
-            k = rng.randint(0, len(keys))
-            chosen = rng.sample(keys, k)
-            if rng.random() < 0.12:
-                chosen.append((rng.choice(["nope", "x_", "_" + (keys[0][0] if keys else "q")]), None))
-                chosen = list({c[0]: c for c in chosen}.values())
-            changes = []
-            for i, (key, fname) in enumerate(chosen):
-                r = rng.random()
-                if r < 0.2:
-                    val = rng.choice(["None", "None", ""])
-                elif r < 0.5 and fname is not None and curd.get(fname) is not None:
-                    val = curd[fname]      # EQUAL to what the field holds now (but a distinct object, see _passed)
+        mutable_validate_free = not frozen
+        # validators whose verdict depends on the instance: own value or another field's
+        veto = []
+        names_all = [f["name"] for f in fields]
+        for f in fields:
+            nv = f.get("validators", 0)
+            if nv and (f.get("init", True) or f["default"] != "none") and rng.random() < 0.7:
+                veto.append({"field": f["name"], "idx": rng.randrange(nv),
+                             "watch": f["name"] if rng.random() < 0.5 else rng.choice(names_all)})
+        watched = sorted({r["watch"] for r in veto})
+        veto_exc = rng.choice(["plain", "value", "value", "type"])
+        if rng.random() < 0.1:
+            h = dict(h, validators_enabled=False)     # evolve while validators are switched off process-wide
+        try:
+            for _ in range(3):
+                hist = {"hash_before": rng.random() < 0.6, "reassign": [], "warm": [], "warm_sub": rng.random() < 0.3,
+                        "plain_sub": rng.choice([None, None, None, None, None, "dict", "dict", "slots"]),
+                        "extra_attr": rng.random() < 0.3}
+                if len(h["classes"]) > 1 and rng.random() < 0.6:
+                    for i, cs in enumerate(h["classes"][:-1]):
+                        if cs["kind"] == "attrs" and cs.get("init") is not False:
+                            hist["warm"].append([i, ib.gen_call(rng, {"classes": h["classes"][: i + 1]}, malformed=0.0)])
+                if mutable_validate_free and fields and rng.random() < 0.4:
+                    if watched and rng.random() < 0.5:
+                        # the original is mutated into a state its validators would reject
+                        hist["reassign"] = [[rng.choice(watched), "bad0"]]
+                    else:
+                        hist["reassign"] = [[rng.choice(fields)["name"], "r1"]]
+                inst, cur, C = _history(h, ctor, hist, veto, veto_exc)
+                if inst is None:
+                    break
+                if any(v is not None and (v == "NOTHING" or v.startswith("exc:")) for _, v in cur):
+                    continue
+                curd = dict(map(tuple, cur))
+                init_fields = [f for f in fields if f.get("init", True)]
+                if any(curd.get(f["name"]) is None for f in init_fields):
+                    continue  # an init field is unset on the original (K3 shapes): evolve's precondition fails
+                facts = layout_facts(inst)
+                op = rng.choice(["evolve", "evolve", "assoc"])
+                if op == "assoc" and any(v is None for _, v in cur) and facts["copyNeedsAll"]:
+                    op = "evolve"      # copying through a generated __getstate__ needs every field set (C10's precondition)
+                if op == "assoc" and (ib.run_in(h)[0]["cfg"]["isExc"] or h["classes"][0].get("exc_base")):
+                    op = "evolve"
+                if op == "evolve":
+                    keys = [(f.get("alias") or ib.default_alias(f["name"]), f["name"]) for f in init_fields]
+                    # names evolve must refuse: a field's name where the alias differs, an init=False field
+                    near = [f["name"] for f in fields if not f.get("init", True)
+                            or (f.get("alias") or ib.default_alias(f["name"])) != f["name"]]
                 else:
-                    val = f"n{i + 1}"
-                changes.append([key, val])
-            yield make_case(h, ctor, hist, op, changes, cur, rng.choice(["sub", "plain"]))
+                    keys = [(f["name"], f["name"]) for f in fields]
+                    near = [f.get("alias") or ib.default_alias(f["name"]) for f in fields]
+                taken = {k_ for k_, _ in keys}
+                k = rng.randint(0, len(keys))
+                chosen = rng.sample(keys, k)
+                if rng.random() < 0.2:
+                    r = rng.random()
+                    pool = TUPLE_NAMES if r < 0.15 else near if (r < 0.4 and near) else CLEAN_NAMES
+                    bad_name = rng.choice(pool)
+                    if bad_name not in taken:
+                        chosen.insert(rng.randint(0, len(chosen)), (bad_name, None))
+                changes = []
+                for i, (key, fname) in enumerate(chosen):
+                    r = rng.random()
+                    if fname in watched and r < 0.25:
+                        val = f"bad{i + 1}"     # a value some validator rejects (its own field's or another's)
+                    elif r < 0.2:
+                        val = rng.choice(["None", "None", ""])
+                    elif r < 0.5 and fname is not None and curd.get(fname) is not None:
+                        val = curd[fname]      # EQUAL to what the field holds now (but a distinct object, see _passed)
+                    else:
+                        val = f"n{i + 1}"
+                    changes.append([key, val])
+                yield make_case(h, ctor, hist, op, changes, cur, rng.choice(["sub", "plain"]), veto, facts, veto_exc)
+        finally:
+            ib.VETO[0] = None
 
 
 def defines(case):
@@ -189,18 +312,64 @@ def defines(case):
         return f"{type(e).__name__}: {e}"
 
 
+def _direct(inst, C, h, passed):
+    """what calling the class directly with evolve's arguments does: (exception kind, values, callback trace)"""
+    names = [f["name"] for f in ib.expected_fields(h)]
+    kwargs = dict(passed)
+    for f in ib.expected_fields(h):
+        if not f.get("init", True):
+            continue
+        al = f.get("alias") or ib.default_alias(f["name"])
+        if al not in kwargs:
+            try:
+                kwargs[al] = getattr(inst, f["name"])
+            except AttributeError:
+                return "attributeError", [], []
+    ib.SELF[0] = None
+    ib.SELF_CLASS[0] = C
+    del ib.TRACE[:]
+    exc, res = None, None
+    try:
+        res = C(**kwargs)
+    except BaseException as e:  # noqa: BLE001
+        exc = ib.exc_enum(e)
+    finally:
+        ib.SELF_CLASS[0] = None
+    trace = list(ib.TRACE)
+    del ib.TRACE[:]
+    if exc is not None:
+        return exc, [], trace
+    ib.SELF[0] = res
+    return None, ib.read_values(res, names), trace
+
+
 def observe(case):
     if "__gen_error__" in case:
         raise RuntimeError("class spec did not define: " + case["__gen_error__"])
+    prev_disabled = attr.validators.get_disabled()
+    try:
+        return _observe(case)
+    finally:
+        ib.VETO[0] = None
+        ib.SELF_CLASS[0] = None
+        attr.validators.set_disabled(prev_disabled)
+        del ib.TRACE[:]
+
+
+def _observe(case):
     h = case["hspec"]
-    inst, cur, C = _history(h, case["ctor"], case["hist"])
+    inst, cur, C = _history(h, case["ctor"], case["hist"], case.get("veto"), case.get("veto_exc", "plain"))
     names = [f["name"] for f in ib.expected_fields(h)]
     frozen_expected = case["base"]["run"]["cfg"]["frozen"]
+    # the operation may run while validators are switched off process-wide (the original was built with them on)
+    switch = not case["base"]["run"]["cfg"]["runValidators"]
+    attr.validators.set_disabled(switch)
     ib.SELF[0] = None
     ib.SELF_CLASS[0] = C
     exc = None
     res = None
     passed = {k: _passed(v, case.get("passed_as", "sub")) for k, v in case["changes"]}
+    del ib.TRACE[:]
     try:
         with warnings.catch_warnings():
             warnings.simplefilter("ignore")
@@ -212,13 +381,27 @@ def observe(case):
         exc = ib.exc_enum(e)
     finally:
         ib.SELF_CLASS[0] = None
-        del ib.TRACE[:]
+    trace = list(ib.TRACE)
+    del ib.TRACE[:]
+    switch_kept = attr.validators.get_disabled() == switch
     ib.SELF[0] = inst
     orig = ib.read_values(inst, names)
     if cur != case["cur"]:
         orig = [["<history not reproducible>", None]]
+    like = True
+    if case["op"] == "evolve":
+        # evolve against a direct call of the class with the same argument objects
+        if res is not None:
+            ib.SELF[0] = res
+        ev_values = ib.read_values(res, names) if exc is None else []
+        d_exc, d_values, d_trace = _direct(inst, C, h, passed)
+        like = bool(switch_kept and d_exc == exc and d_values == ev_values and d_trace == trace)
+        ib.SELF[0] = inst
+    elif not switch_kept:
+        like = False
     if exc is not None:
-        return {"exc": exc, "values": [], "orig": orig, "fresh": False, "invariants": False, "ident": []}
+        return {"exc": exc, "values": [], "orig": orig, "fresh": False, "invariants": False, "ident": [],
+                "trace": trace, "likeDirect": like}
     ib.SELF[0] = res
     values = ib.read_values(res, names)
     # which object each judged field of the result holds, read back with getattr: the one passed for it, the
@@ -277,7 +460,8 @@ def observe(case):
             inv = False
     except Exception:  # noqa: BLE001
         inv = False
-    return {"exc": None, "values": values, "orig": orig, "fresh": bool(fresh), "invariants": inv, "ident": ident}
+    return {"exc": None, "values": values, "orig": orig, "fresh": bool(fresh), "invariants": inv, "ident": ident,
+            "trace": trace, "likeDirect": like}
 
 
 def nontrivial(case, model):
@@ -298,6 +482,20 @@ def dist(case, obs):
         by_key[a["alias"] if case["op"] == "evolve" else a["name"]] = a
     d["equal_change"] = sum(1 for k, v in case["changes"] if k in by_key and curd.get(by_key[k]["name"]) == v and v != "None")
     d["passed_as"] = case.get("passed_as", "sub")
+    # validators depending on state: is a bad value around, where does it come from, what happened
+    bad_change = [k for k, v in case["changes"] if "bad" in v]
+    bad_cur = [k for k, v in case["cur"] if v is not None and "bad" in v]
+    d["veto_rules"] = min(len(case.get("veto", [])), 3)
+    d["bad_value"] = ("change" if bad_change else "") + ("+carried" if bad_cur else "") or "none"
+    d["validators_switch"] = "on" if case["base"]["run"]["cfg"]["runValidators"] else "off"
+    # the name space of the change set
+    fld = {a["name"] for a in case["base"]["run"]["attrs"]}
+    other = [k for k, _ in case["changes"] if k not in by_key]
+    d["non_key_name"] = ("none" if not other else "tuple-name" if other[0] in TUPLE_NAMES else
+                         "near(field/alias)" if other[0] in fld or other[0] in {a["alias"] for a in case["base"]["run"]["attrs"]}
+                         else "dunder" if other[0].startswith("__") else "member/extra/unknown")
+    d["unset_field"] = ("named" if any(curd.get(k, "") is None and k in fld for k, _ in case["changes"]) else
+                        "present" if any(v is None for v in curd.values()) else "no")
     d["plain_sub"] = case["hist"].get("plain_sub") or "no"
     # storage layout: where the instance's class keeps the changed fields
     cls_slots = case["base"]["run"]["cfg"]["slots"] if not case["hist"].get("plain_sub") else case["hist"]["plain_sub"] == "slots"
@@ -317,7 +515,21 @@ def shrink(case):
     if case["hist"].get("warm_sub"):
         yield dict(case, hist=dict(case["hist"], warm_sub=False))
     if case["hist"].get("plain_sub"):
-        yield dict(case, hist=dict(case["hist"], plain_sub=None))
+        # the layout facts of the instance's class go with the class
+        cand = dict(case, hist=dict(case["hist"], plain_sub=None))
+        try:
+            inst, _, _ = _history(cand["hspec"], cand["ctor"], cand["hist"], cand.get("veto"), cand.get("veto_exc", "plain"))
+            if inst is not None:
+                yield dict(cand, **layout_facts(inst))
+        except Exception:  # noqa: BLE001
+            pass
+        finally:
+            ib.VETO[0] = None
+    if case["hist"].get("extra_attr"):
+        yield dict(case, hist=dict(case["hist"], extra_attr=False))
+    vt = case.get("veto", [])
+    for i in range(len(vt)):
+        yield dict(case, veto=vt[:i] + vt[i + 1:])
     if case.get("passed_as") == "plain":
         yield dict(case, passed_as="sub")
     for i, (k, v) in enumerate(ch):
